@@ -245,7 +245,11 @@ impl Parser {
                 };
             }
             self.next();
-            parts.push(SExp::Var(name));
+            parts.push(match name.as_str() {
+                "true" => SExp::Num(1.0),
+                "false" => SExp::Num(0.0),
+                _ => SExp::Var(name),
+            });
         }
         if parts.is_empty() {
             return Err(format!("expected an operand at token {}", self.pos));
